@@ -1,0 +1,20 @@
+//go:build verif
+
+package tls
+
+// VerifLRUDump returns the keys and sessions of an LRU client session cache in
+// recency order (most recently used first). Verification hook; add-only.
+func VerifLRUDump(c ClientSessionCache) (keys []string, states []*ClientSessionState, mapLen int, ok bool) {
+	l, isLRU := c.(*lruSessionCache)
+	if !isLRU {
+		return nil, nil, 0, false
+	}
+	l.Lock()
+	defer l.Unlock()
+	for e := l.q.Front(); e != nil; e = e.Next() {
+		ent := e.Value.(*lruSessionCacheEntry)
+		keys = append(keys, ent.sessionKey)
+		states = append(states, ent.state)
+	}
+	return keys, states, len(l.m), true
+}
